@@ -211,13 +211,39 @@ func c15PlaceTrail(host, pos int, atEnd bool, form int, text string, base [2][]j
 
 // ---- file level
 
-func c15FileLevel(heads, pkgs []string) string {
+func c15FileLevel(heads, pkgs []string) string { return c15FileLevelOrder(heads, pkgs, 0) }
+
+// order: 0 = header comments first, 1 = package comments first, 2 = alternating (header first),
+// 3 = alternating (package comment first)
+func c15FileLevelOrder(heads, pkgs []string, order int) string {
 	f := jen.NewFile("p")
-	for _, h := range heads {
-		f.HeaderComment(h)
-	}
-	for _, p := range pkgs {
-		f.PackageComment(p)
+	switch order {
+	case 0, 1:
+		if order == 1 {
+			for _, p := range pkgs {
+				f.PackageComment(p)
+			}
+		}
+		for _, h := range heads {
+			f.HeaderComment(h)
+		}
+		if order == 0 {
+			for _, p := range pkgs {
+				f.PackageComment(p)
+			}
+		}
+	default:
+		for i := 0; i < len(heads) || i < len(pkgs); i++ {
+			if order == 3 && i < len(pkgs) {
+				f.PackageComment(pkgs[i])
+			}
+			if i < len(heads) {
+				f.HeaderComment(heads[i])
+			}
+			if order == 2 && i < len(pkgs) {
+				f.PackageComment(pkgs[i])
+			}
+		}
 	}
 	f.Var().Id("x").Op("=").Lit(1)
 	o := jh.RenderFile(f)
@@ -497,8 +523,14 @@ func runC15(r *ev.Recorder) {
 		if len(h)+len(p) > 0 {
 			r.Distinct(desc)
 		}
-		if msg := c15FileLevel(h, p); msg != "" {
-			r.Violate(ev.Violation{Signature: "c15:file:" + problemKind(msg), What: desc + ": " + jh.Short(msg, 300), Case: ev.JSON(c15Case{Kind: "file", Heads: h, Pkgs: p, Desc: desc}), Detail: msg})
+		for order := 0; order < 4; order++ {
+			if order > 0 && (len(h) == 0 || len(p) == 0) {
+				break
+			}
+			if msg := c15FileLevelOrder(h, p, order); msg != "" {
+				d := desc + []string{"", " (package comments added first)", " (added alternately, header first)", " (added alternately, package comment first)"}[order]
+				r.Violate(ev.Violation{Signature: "c15:file:" + problemKind(msg), What: d + ": " + jh.Short(msg, 300), Case: ev.JSON(c15Case{Kind: "file", Heads: h, Pkgs: p, Pos: order, Desc: d}), Detail: msg})
+			}
 		}
 	})
 	// long lines and foreign line endings in file-level comments: three lines, the middle one of
@@ -594,7 +626,7 @@ func replayC15(raw json.RawMessage) (bool, string) {
 		}
 		msg = c15PlaceTrail(c.Host, c.Pos, c.AtEnd, c.Form, t, [2][]jh.Tok{c15BaseTokens(c.Host, true), c15BaseTokens(c.Host, false)}, trail)
 	case "file":
-		msg = c15FileLevel(c.Heads, c.Pkgs)
+		msg = c15FileLevelOrder(c.Heads, c.Pkgs, c.Pos)
 	case "canonical":
 		t, _ := strconv.Unquote(c.Text)
 		msg = c15Canonical(t)
